@@ -64,6 +64,50 @@ fn check_accumulators(o: &OwnedSpendBundleConditions, entry: &str, limit: u64) -
 }
 
 /// limit exactness for a runner: Ok with identical result at `total`, CostExceeded below
+/// limits at which the running cost countdown reaches exactly zero part-way
+/// through validation: `base` (byte/interned cost + the generator's own run)
+/// plus the execution cost and then the condition cost of each spend in turn.
+/// Every one of them that is below the total must fail with cost-exceeded.
+fn check_prefix_sums<F>(run: F, o: &OwnedSpendBundleConditions, base: u64, entry: &str, ctx: &mut Ctx) -> CaseResult
+where
+    F: Fn(u64) -> Result<OwnedSpendBundleConditions, ValidationErr>,
+{
+    let total = o.cost;
+    let mut acc = base;
+    let mut limits = vec![base];
+    for sp in &o.spends {
+        acc += sp.execution_cost;
+        limits.push(acc);
+        acc += sp.condition_cost;
+        limits.push(acc);
+    }
+    limits.sort_unstable();
+    limits.dedup();
+    let mut probed = 0;
+    for l in limits {
+        if l >= total {
+            continue;
+        }
+        for lim in [l, l + 1, l.saturating_sub(1)] {
+            if lim >= total {
+                continue;
+            }
+            match run(lim) {
+                Ok(r) => vfail!(format!("C04:{entry}:accepted-below-cost"), "accepted with max_cost {lim} (a prefix sum of the cost countdown) below the cost {total}; reports cost {}", r.cost),
+                Err(e) => vensure!(is_cost_exceeded(&e), format!("C04:{entry}:wrong-error-below-cost"), "max_cost {lim} < cost {total} fails with {e:?}, not CostExceeded"),
+            }
+            probed += 1;
+        }
+        if probed > 40 {
+            break;
+        }
+    }
+    if probed > 0 {
+        ctx.label("limit:prefix-sums-checked");
+    }
+    Ok(())
+}
+
 fn check_limit<F>(run: F, total_result: &OwnedSpendBundleConditions, entry: &str, s: &mut Src<'_>, ctx: &mut Ctx) -> CaseResult
 where
     F: Fn(u64) -> Result<OwnedSpendBundleConditions, ValidationErr>,
@@ -328,6 +372,7 @@ pub fn case_parse_random(bytes: &[u8], ctx: &mut Ctx) -> CaseResult {
             vensure_eq!(got_spends, want_spends, "C04:parse:per-spend-condition-cost", "per-spend condition costs");
             check_accumulators(&got, "parse", generous)?;
             check_limit(|l| parse(&a, node, flags, mempool, l), &got, "parse", &mut s, ctx)?;
+            check_prefix_sums(|l| parse(&a, node, flags, mempool, l), &got, 0, "parse", ctx)?;
             if want > 0 {
                 let mut f = Fnv::new();
                 f.write(&b.tree.serialize(b.root));
@@ -474,6 +519,7 @@ pub fn case_program(bytes: &[u8], ctx: &mut Ctx) -> CaseResult {
             vensure_eq!(sum_exec, exec_puzzles, "C04:rbg2:per-spend-execution-cost", "Σ spends.execution_cost vs Σ puzzle run costs");
             check_accumulators(&o, "rbg2", generous)?;
             check_limit(rbg2, &o, "rbg2", &mut s, ctx)?;
+            check_prefix_sums(rbg2, &o, byte + gen_cost, "rbg2", ctx)?;
             any = true;
         }
         (Err(_), None) => ctx.label("rbg2:rejected"),
@@ -510,6 +556,7 @@ pub fn case_program(bytes: &[u8], ctx: &mut Ctx) -> CaseResult {
             vensure_eq!(sum_exec, o.execution_cost, "C04:run_spendbundle:per-spend-execution-cost", "Σ spends.execution_cost vs execution_cost");
             check_accumulators(&o, "run_spendbundle", generous)?;
             check_limit(rsb, &o, "run_spendbundle", &mut s, ctx)?;
+            check_prefix_sums(rsb, &o, byte, "run_spendbundle", ctx)?;
             any = true;
         }
     }
@@ -557,7 +604,7 @@ pub fn property() -> Property {
                 run: case_program,
                 inflight: false,
                 min_nontrivial: 5_000,
-                required_labels: &["rbg2:accepted", "rbg:accepted", "run_spendbundle:accepted", "pricing:interned", "pricing:bytes", "limit:below-checked"],
+                required_labels: &["rbg2:accepted", "rbg:accepted", "run_spendbundle:accepted", "pricing:interned", "pricing:bytes", "limit:below-checked", "limit:prefix-sums-checked"],
             },
         ],
         death_is_violation: false,
